@@ -156,8 +156,13 @@ static std::vector<std::string> hist_gen(const GenArgs &ga) {
   }
   dirs += strf(" tmp=%s", jit_impossible ? "noexec" : dir_policy(sw, bad_dir_pct).c_str());
   dirs += strf(" execmem=%d", jit_impossible ? 0 : (bad_dir_pct && sw.chance(1, 3)) ? 0 : 1);
-  pl.push_back(strf("env ORC_CODE=%s ORC_DEBUG=%s", orc_code.c_str(),
-                    debug_env < 0 ? "-" : strf("%d", debug_env).c_str()));
+  std::string backend_env = "-";
+  if ((P == "C16" || P == "C06") && sw.chance(1, 5)) {
+    static const char *be[] = {"sse", "avx", "mmx", "c", "nosuch"};
+    backend_env = be[sw.below(5)];
+  }
+  pl.push_back(strf("env ORC_CODE=%s ORC_DEBUG=%s ORC_BACKEND=%s", orc_code.c_str(),
+                    debug_env < 0 ? "-" : strf("%d", debug_env).c_str(), backend_env.c_str()));
   pl.push_back(dirs);
   pl.push_back(strf("cfg poison=%d sink=%d cycles=%d oracles=%s refchild=%d", poison, sink, cycles, oracles.c_str(),
                     nsubjects > 0));
@@ -699,7 +704,8 @@ static void hist_run(const std::vector<std::string> &plan, Child &c) {
   if (st.orc_code != "-") setenv("ORC_CODE", st.orc_code.c_str(), 1); else unsetenv("ORC_CODE");
   std::string dbg = kv(env_w, "ORC_DEBUG", "-");
   if (dbg != "-") setenv("ORC_DEBUG", dbg.c_str(), 1); else unsetenv("ORC_DEBUG");
-  unsetenv("ORC_BACKEND");
+  std::string be = kv(env_w, "ORC_BACKEND", "-");
+  if (be != "-") setenv("ORC_BACKEND", be.c_str(), 1); else unsetenv("ORC_BACKEND");
   unsetenv("ORC_TARGET");
   st.debug_mode = st.orc_code.find("debug") != std::string::npos;
   fs::reset();
@@ -783,8 +789,9 @@ static void hist_run(const std::vector<std::string> &plan, Child &c) {
         if (st.progs.empty()) { c.event("  skip"); continue; }
         Prog &p = st.progs[kvi(w, "p") % st.progs.size()];
         std::string tname = kv(w, "target", "default");
-        if (tname == "mmx" && p.meta.has8) tname = "sse";  // 64-bit programs on mmx: another property's defect
         OrcTarget *t = target_by_name(tname);
+        // 64-bit programs on mmx never terminate on the pinned tree: another property's defect
+        if (t && !strcmp(t->name, "mmx") && p.meta.has8) { tname = "sse"; t = target_by_name(tname); }
         if (!t && tname != "null") { c.event("  skip no-target"); continue; }
         unsigned flags = t ? (orc_target_get_default_flags(t) & (unsigned)kvu(w, "fmask", 0xffffffffUL)) : 0;
         bool pending = strcmp(orc_program_get_error(p.p), "") != 0;
@@ -1084,7 +1091,7 @@ static std::vector<std::string> hist_simplify(const std::string &line) {
     if (changed) out.push_back(s);
   };
   if (w[0] == "cfg") { replace_kv("poison", "0"); replace_kv("sink", "0"); if (kvi(w, "cycles", 1) > 3) replace_kv("cycles", "3"); }
-  if (w[0] == "env") { replace_kv("ORC_DEBUG", "-"); replace_kv("ORC_CODE", "-"); }
+  if (w[0] == "env") { replace_kv("ORC_DEBUG", "-"); replace_kv("ORC_CODE", "-"); replace_kv("ORC_BACKEND", "-"); }
   if (w[0] == "dirs") { for (auto d : {"xdg", "home", "tmpdir"}) replace_kv(d, "unset"); replace_kv("tmp", "ok"); replace_kv("execmem", "1"); }
   if (w[0] == "op" && w.size() > 1) {
     if (w[1] == "run" || w[1] == "runc") { replace_kv("n", "4"); replace_kv("mode", "exec"); }
